@@ -1397,6 +1397,20 @@ struct Exec {
     }
 
     // ---- ops
+    // Lattice construction costs about a quarter of a millisecond per word exit in the search history, several times
+    // over (232 000 exits in 226 frames - a looping grammar without insertion penalties - took 55 s per lattice):
+    // performance is outside what these properties say, so lattices are requested only up to a fixed number of word
+    // exits, a quantity that is itself part of the deterministic execution
+    bool lattice_affordable(DecState &s)
+    {
+        if (!s.d->search)
+            return true;
+        int n = fsg_history_n_entries(((fsg_search_t *)s.d->search)->history);
+        if (n <= 25000)
+            return true;
+        out.probes["lat.skipped_too_many_word_exits"]++;
+        return false;
+    }
     bool load_grammar(DecState &s, const Json &g, int opi)
     {
         const std::string &kind = g.gets("kind");
@@ -1498,6 +1512,9 @@ struct Exec {
             if (it)
                 seg_iter_free(it);
             out.probes["dec.seg_iter_abandoned"]++;
+        } else if ((what == "lattice" || what == "nbest" || what == "post") && !lattice_affordable(s)) {
+            Rec r = capture(s.d);
+            check_record(s, r, final, opi);
         } else if (what == "lattice" || what == "nbest" || what == "post") {
             Rec r = capture(s.d);
             lattice_t *dag = decoder_lattice(s.d);
@@ -1572,7 +1589,7 @@ struct Exec {
         Json rj = r.to_json(true);
         if (s.probe && profile == "C08") {
             // C08 compares the lattice and the first N-best entries too
-            lattice_t *dag = decoder_lattice(s.d);
+            lattice_t *dag = lattice_affordable(s) ? decoder_lattice(s.d) : nullptr;
             rj.set("lattice", capture_lattice(dag).canon());
             Json nb = Json::array();
             if (dag) {
@@ -1916,7 +1933,7 @@ struct Gen {
             k.set("pbeam", r.chance(0.7) ? b : r.pick(beams));
             // (lattice construction is quadratic in the number of word exits: the lattice profiles keep the word beam at
             // its default or narrower, performance being outside what simulation decides)
-            k.set("wbeam", lat_rate > 0.5 ? r.pick(std::vector<double> { 7e-29, 7e-29, 1e-15, 1e-8 }) : r.pick(wbeams));
+            k.set("wbeam", lat_rate > 0.5 || builds_lattices ? r.pick(std::vector<double> { 7e-29, 7e-29, 1e-15, 1e-8 }) : r.pick(wbeams));
         }
         if (r.chance(0.3))
             k.set("fsgusefiller", r.chance(0.5));
@@ -1989,6 +2006,7 @@ struct Gen {
         push(op, d);
     }
     double json_rate = 0.0; // C14: share of queries that ask for the JSON result
+    bool builds_lattices = false; // C08: the probe's lattice is compared, so the word beam stays at its default or narrower as in C11/C12
     double lat_rate = 0.0; // C11/C12 (and C08's probe): share of queries that are lattice / N-best / posterior requests
     Json query(bool allow_align)
     {
@@ -2302,6 +2320,7 @@ struct DecWorld : World {
             bool full = r.chance(0.08);
             g.utterance(0, t, true, true, false, full, MAX_CMP_SAMPLES, r.chance(0.5) ? 0.3 : 0.0, false, true);
         } else if (prop == "C08") {
+            g.builds_lattices = true;
             int nd = (int)r.range(1, 3);
             std::vector<std::string> slots = { "en", "en", "enc", "fr" }, ts;
             for (size_t i = slots.size(); i > 1; --i)
